@@ -147,10 +147,32 @@ package socket
 //@   property C15
 //@   requires msgOwnStatus(as(message, type(*message)))
 
+// ---- C06: the size check dominates every allocation ---------------------------
+// ghost.maxAlloc = the largest buffer length requested (make) so far
+//@ ghost global maxAlloc int
+//@ constglobal ErrExceedMessageSizeLimit @C06
+
+//@ func checkMessageSize
+//@   property C06
+//@   modifies nothing
+//@   ensures[limit] (result == nil) <==> messageSize <= messageSizeLimit
+
+//@ func minus
+//@   property C06 C05
+//@   flags overflow-checked
+//@   requires -4611686018427387904 < a && a < 4611686018427387904 && -4611686018427387904 < b && b < 4611686018427387904
+//@   modifies nothing
+//@   ensures[ok] result.1 == nil ==> b >= 0 && result.0 == a - b && result.0 >= 0
+//@   ensures[reject] result.1 != nil ==> (a - b < 0 || b < 0) && result.0 == a
+
 //@ func (*rawProto).readMessage
-//@   property C12
+//@   property C12 C06
 //@   flags libframe
 //@   let rm = as(m, type(*message))
-//@   modifies rm.size, fields(rm.xferPipe), allelems(type(xfer.XferFilter)), bb.B, lockset, ghost.appendFailed
+//@   modifies rm.size, fields(rm.xferPipe), allelems(type(xfer.XferFilter)), bb.B, lockset, ghost.appendFailed, ghost.maxAlloc
+//@   requires @C06 bb != nil
+//@   let lim = old(messageSizeLimit)
+//@   ensures[alloc-within-limit] @C06 ghost.maxAlloc <= old(ghost.maxAlloc) || ghost.maxAlloc <= 4 || ghost.maxAlloc <= lim
+//@   ensures[size-checked] @C06 result == nil ==> rm.size <= lim && len(bb.B) + 5 <= rm.size
 //@   requires[no-pending-refusal] !ghost.appendFailed
 //@   ensures[refusal-propagated] result == nil ==> !ghost.appendFailed
